@@ -1,5 +1,280 @@
 package main
 
-import "strings"
+import (
+	"fmt"
+	"go/ast"
+	"go/token"
+	"sort"
+	"strings"
+)
 
-func (x *extractor) genSkeletonsConc(b *strings.Builder) {}
+// concEvents lists, in source order, the concurrency-relevant statements of a function:
+// channel creations (with capacity), go statements, sends, receives, closes, deferred closes,
+// sync calls (Lock/Unlock/RLock/RUnlock/Wait/Add/Done), returns.
+func concEvents(fd *ast.FuncDecl) []string {
+	var ev []string
+	if fd == nil || fd.Body == nil {
+		return nil
+	}
+	var walk func(n ast.Node)
+	call := func(ce *ast.CallExpr, deferred bool) {
+		name := exprText(ce.Fun)
+		pre := ""
+		if deferred {
+			pre = "defer "
+		}
+		switch {
+		case name == "close()" || name == "close":
+			ev = append(ev, pre+"close "+exprText(ce.Args[0]))
+		case strings.HasSuffix(name, ".Lock") || strings.HasSuffix(name, ".Unlock") || strings.HasSuffix(name, ".RLock") ||
+			strings.HasSuffix(name, ".RUnlock") || strings.HasSuffix(name, ".Wait") || strings.HasSuffix(name, ".Done") || strings.HasSuffix(name, ".Add") && strings.Contains(name, "riters"):
+			ev = append(ev, pre+"sync "+name)
+		}
+	}
+	walk = func(n ast.Node) {
+		ast.Inspect(n, func(n ast.Node) bool {
+			switch s := n.(type) {
+			case *ast.FuncLit:
+				ev = append(ev, "func{")
+				walk(s.Body)
+				ev = append(ev, "}")
+				return false
+			case *ast.GoStmt:
+				if fl, ok := s.Call.Fun.(*ast.FuncLit); ok {
+					ev = append(ev, "go func{")
+					walk(fl.Body)
+					ev = append(ev, "}")
+				} else {
+					ev = append(ev, "go "+exprText(s.Call.Fun))
+				}
+				return false
+			case *ast.DeferStmt:
+				if fl, ok := s.Call.Fun.(*ast.FuncLit); ok {
+					ev = append(ev, "defer func{")
+					walk(fl.Body)
+					ev = append(ev, "}")
+				} else {
+					call(s.Call, true)
+				}
+				return false
+			case *ast.SendStmt:
+				ev = append(ev, "send "+exprText(s.Chan))
+			case *ast.UnaryExpr:
+				if s.Op == token.ARROW {
+					ev = append(ev, "recv "+exprText(s.X))
+				}
+			case *ast.CallExpr:
+				if id, ok := s.Fun.(*ast.Ident); ok && id.Name == "make" && len(s.Args) >= 1 {
+					if _, isChan := s.Args[0].(*ast.ChanType); isChan {
+						cp := "0"
+						if len(s.Args) == 2 {
+							cp = exprText(s.Args[1])
+						}
+						ev = append(ev, "makechan cap="+cp)
+					}
+				} else if id, ok := s.Fun.(*ast.Ident); ok && id.Name == "close" {
+					ev = append(ev, "close "+exprText(s.Args[0]))
+				} else {
+					call(s, false)
+				}
+			case *ast.ReturnStmt:
+				ev = append(ev, "return")
+			case *ast.ForStmt:
+				ev = append(ev, "for")
+			case *ast.RangeStmt:
+				ev = append(ev, "range "+exprText(s.X))
+			}
+			return true
+		})
+	}
+	walk(fd.Body)
+	return ev
+}
+
+func (x *extractor) genSkeletonsConc(b *strings.Builder) {
+	type fn struct{ alias, name string }
+	fns := []fn{
+		{"handler", "Handler.HandleMessages"}, {"pushback", "ByteChannel.get"},
+		{"fh", "Handler.Handle"}, {"appcore", "AppCore.HandleMessagesUntilEOF"},
+		{"display", "HandleMessages"}, {"display", "DisplayMessages"},
+		{"filter", "HandleMessages"}, {"filter", "writeRTCMMessages"}, {"filter", "writeReadableMessages"},
+		{"logger", "start"}, {"logger", "readAndWrite"}, {"logger", "recorder"},
+		{"proxy", "start"}, {"proxy", "handleMessages"}, {"proxy", "handleClientMessages"}, {"proxy", "handleServerMessages"}, {"proxy", "keepCircularQueueUpdated"},
+		{"cq", "CircularQueue.Add"}, {"cq", "CircularQueue.GetMessages"}, {"cq", "CircularQueue.getKeysInAscendingOrder"}, {"cq", "NewCircularQueue"},
+		{"rf", "ReportFeed.Status"}, {"rf", "ReportFeed.RecordClientBuffer"}, {"rf", "ReportFeed.RecordServerBuffer"},
+	}
+	for _, f := range fns {
+		_, fd := x.fn(f.alias, f.name)
+		name := leanIdent("skeleton_" + f.alias + "_" + f.name)
+		if fd == nil {
+			x.problem("%s.%s not found", f.alias, f.name)
+			fmt.Fprintf(b, "def %s : Option (List String) := none\n", name)
+			continue
+		}
+		fmt.Fprintf(b, "def %s : Option (List String) := some [%s]\n", name, quoteJoin(concEvents(fd)))
+	}
+	// which functions of the circular_queue package touch Items / NextIndex at all
+	if p := x.byAlias["cq"]; p != nil {
+		var users []string
+		for name, fd := range p.funcs {
+			if fd.Body == nil {
+				continue
+			}
+			uses := false
+			ast.Inspect(fd.Body, func(n ast.Node) bool {
+				if se, ok := n.(*ast.SelectorExpr); ok && (se.Sel.Name == "Items" || se.Sel.Name == "NextIndex") {
+					uses = true
+				}
+				return true
+			})
+			if uses {
+				users = append(users, name)
+			}
+		}
+		sort.Strings(users)
+		fmt.Fprintf(b, "def cq_state_users : List String := [%s]\n", quoteJoin(users))
+	}
+	// Status: the arguments of the final Sprintf and how each was produced
+	if p, fd := x.fn("rf", "ReportFeed.Status"); fd != nil && fd.Body != nil {
+		_ = p
+		assigns := map[string][]string{}
+		var holes []string
+		ast.Inspect(fd.Body, func(n ast.Node) bool {
+			switch s := n.(type) {
+			case *ast.AssignStmt:
+				if len(s.Lhs) == 1 && len(s.Rhs) == 1 {
+					v := exprText(s.Lhs[0])
+					assigns[v] = append(assigns[v], s.Tok.String()+" "+exprText(s.Rhs[0]))
+				}
+			case *ast.CallExpr:
+				if exprText(s.Fun) == "fmt.Sprintf" && len(s.Args) > 1 && exprText(s.Args[0]) == "reportFormat" {
+					for _, a := range s.Args[1:] {
+						holes = append(holes, exprText(a))
+					}
+				}
+			}
+			return true
+		})
+		fmt.Fprintf(b, "def rf_Status_holes : List String := [%s]\n", quoteJoin(holes))
+		var keys []string
+		for k := range assigns {
+			keys = append(keys, k)
+		}
+		sort.Strings(keys)
+		var parts []string
+		for _, k := range keys {
+			parts = append(parts, fmt.Sprintf("(%s, [%s])", leanString(k), quoteJoin(assigns[k])))
+		}
+		fmt.Fprintf(b, "def rf_Status_assigns : List (String × List String) := [%s]\n", strings.Join(parts, ", "))
+	} else {
+		b.WriteString("def rf_Status_holes : List String := []\ndef rf_Status_assigns : List (String × List String) := []\n")
+	}
+	// Sanitise: the replacements it performs
+	if _, fd := x.fn("rf", "Sanitise"); fd != nil && fd.Body != nil {
+		var reps []string
+		ast.Inspect(fd.Body, func(n ast.Node) bool {
+			if ce, ok := n.(*ast.CallExpr); ok && exprText(ce.Fun) == "strings.Replace" && len(ce.Args) == 4 {
+				reps = append(reps, exprText(ce.Args[1])+"=>"+exprText(ce.Args[2])+" n="+exprText(ce.Args[3]))
+			}
+			return true
+		})
+		fmt.Fprintf(b, "def rf_Sanitise_replacements : List String := [%s]\n", quoteJoin(reps))
+	}
+	// reportFormat: the template text
+	if p := x.byAlias["rf"]; p != nil {
+		if e, ok := p.decls["reportFormat"]; ok {
+			if bl, ok := e.(*ast.BasicLit); ok {
+				txt := strings.Trim(bl.Value, "`")
+				fmt.Fprintf(b, "def rf_reportFormat_lt : Nat := %d\ndef rf_reportFormat_gt : Nat := %d\ndef rf_reportFormat_holes : Nat := %d\n",
+					strings.Count(txt, "<"), strings.Count(txt, ">"), strings.Count(txt, "%s"))
+			}
+		}
+	}
+}
+
+// genGlobals lists the package-level variables of the library packages and every write to
+// one of them outside init (hidden mutable state would show up here).
+func (x *extractor) genGlobals(b *strings.Builder) {
+	for _, alias := range []string{"utils", "header", "handler", "pushback", "t1005", "t1006", "sat4", "sig4", "msg4", "sat7", "sig7", "msg7", "appcore", "fh"} {
+		p := x.byAlias[alias]
+		if p == nil {
+			continue
+		}
+		vars := map[string]bool{}
+		for _, f := range p.files {
+			for _, d := range f.Decls {
+				if gd, ok := d.(*ast.GenDecl); ok && gd.Tok == token.VAR {
+					for _, sp := range gd.Specs {
+						for _, n := range sp.(*ast.ValueSpec).Names {
+							if n.Name != "_" {
+								vars[n.Name] = true
+							}
+						}
+					}
+				}
+			}
+		}
+		var names []string
+		for v := range vars {
+			names = append(names, v)
+		}
+		sort.Strings(names)
+		var writes []string
+		var fnames []string
+		for fn := range p.funcs {
+			fnames = append(fnames, fn)
+		}
+		sort.Strings(fnames)
+		for _, fn := range fnames {
+			fd := p.funcs[fn]
+			if fn == "init" || fd.Body == nil {
+				continue
+			}
+			// names shadowed by parameters or local declarations are not the globals
+			local := map[string]bool{}
+			if fd.Type.Params != nil {
+				for _, fl := range fd.Type.Params.List {
+					for _, n := range fl.Names {
+						local[n.Name] = true
+					}
+				}
+			}
+			ast.Inspect(fd.Body, func(n ast.Node) bool {
+				switch s := n.(type) {
+				case *ast.AssignStmt:
+					for _, l := range s.Lhs {
+						root := l
+						for {
+							switch e := root.(type) {
+							case *ast.IndexExpr:
+								root = e.X
+								continue
+							case *ast.SelectorExpr:
+								root = e.X
+								continue
+							case *ast.StarExpr:
+								root = e.X
+								continue
+							}
+							break
+						}
+						if id, ok := root.(*ast.Ident); ok {
+							if s.Tok == token.DEFINE {
+								local[id.Name] = true
+							} else if vars[id.Name] && !local[id.Name] {
+								writes = append(writes, fn+":"+id.Name)
+							}
+						}
+					}
+				case *ast.IncDecStmt:
+					if id, ok := s.X.(*ast.Ident); ok && vars[id.Name] && !local[id.Name] {
+						writes = append(writes, fn+":"+id.Name)
+					}
+				}
+				return true
+			})
+		}
+		fmt.Fprintf(b, "def globals_%s : List String := [%s]\n", alias, quoteJoin(names))
+		fmt.Fprintf(b, "def global_writes_%s : List String := [%s]\n", alias, quoteJoin(writes))
+	}
+}
